@@ -78,7 +78,7 @@ pub fn run_check(context: &CheckContext) -> CheckOutcome {
         outcome.reports.push(report);
         if let Some(violation) = violation { outcome.violations.push(violation); }
     }
-    if outcome.violations.is_empty() && matches!(context.property.as_str(), "C01" | "C02" | "C03" | "C04" | "C05" | "C07" | "C09" | "C10" | "C11" | "C13" | "C15" | "C16" | "C17") { return run_conc_check(context, outcome); }
+    if outcome.violations.is_empty() && matches!(context.property.as_str(), "C01" | "C02" | "C03" | "C04" | "C05" | "C06" | "C07" | "C09" | "C10" | "C11" | "C13" | "C15" | "C16" | "C17") { return run_conc_check(context, outcome); }
     outcome
 }
 
@@ -275,6 +275,31 @@ fn run_conc_check(context: &CheckContext, mut outcome: CheckOutcome) -> CheckOut
         outcome.reports.push(report);
         if !outcome.violations.is_empty() { return outcome; }
     }
+    if matches!(context.property.as_str(), "C03" | "C06") {
+        // directed regression scenario of the repaired finding F12 (phantom weight between the two steps of CacheWeight::delete)
+        let started = std::time::Instant::now();
+        let delays: Vec<u64> = if thorough { vec![1, 2, 5, 10, 20, 40] } else { vec![2, 10, 25] };
+        let repeats = if thorough { 10 } else { 4 };
+        let mut report = CampaignReport { name: "directed-phantom-weight".to_string(), engine: "CONC-DIRECTED".to_string(),
+            rule: "directed schedule (through the schedule point inside CacheWeight::delete): keys weighing 4 + 11 + 14 + 17 in a cache of 50; the key of weight 17 expires, the sweeper is delayed d ms right after taking its id out of the weight map; a client removes that key's TTL in place, deletes it and puts it again with weight 17; everything fits, so the put must be accepted and no other key may be evicted; one evaluation per (delay, repetition), each non-trivial when the delete was accepted in the window".to_string(), ..CampaignReport::default() };
+        'phantom: for delay in &delays {
+            for _ in 0..repeats {
+                report.evaluations += 1;
+                report.distinct_nontrivial += 1;
+                if let Some(failure) = phantom_weight_scenario(*delay) {
+                    if failure.concerns(&context.property) {
+                        let replay = Replay { property: context.property.clone(), engine: "DIRECTED-F12".to_string(), campaign: "directed-phantom-weight".to_string(), seed: context.seed, case: json!({"delay_ms": delay}), policy: json!({}), failure: Some(failure.clone()), note: "directed scenario; replay re-executes it 20 times".to_string() };
+                        outcome.violations.push(Violation { replay_path: write_replay(&replay), failure });
+                        break 'phantom;
+                    }
+                }
+            }
+        }
+        report.samples.push(json!({"delays_ms": delays, "repeats": repeats}));
+        report.wall_s = started.elapsed().as_secs_f64();
+        outcome.reports.push(report);
+        if !outcome.violations.is_empty() { return outcome; }
+    }
     outcome.assumptions.extend(vec![
         "CONC: programs are generated deterministically from the seed, but their execution depends on OS scheduling; each program is executed several times; interleavings are sampled, widened by delay injection at hook sites, never enumerated".to_string(),
         "history checkers are one-directional (an absent value is always allowed) and use stamps from one global atomic counter taken before and after each call".to_string(),
@@ -445,6 +470,7 @@ pub fn replay_file(property: &str, path: &str) -> i32 {
     let result = match replay.engine.as_str() {
         "SEQ" => replay_seq(&replay),
         "DIRECTED-F11" => Ok((0..20).find_map(|_| crate::conc::sweep_vs_reput_scenario(replay.case["delay_ms"].as_u64().unwrap_or(20)))),
+        "DIRECTED-F12" => Ok((0..20).find_map(|_| crate::conc::phantom_weight_scenario(replay.case["delay_ms"].as_u64().unwrap_or(20)))),
         "CONC" => decode_case::<crate::conc::ConcCase>(&replay.case).map(|case| {
             // the stored failure is the observed one; try to reproduce it by re-executing
             for _ in 0..50 {
